@@ -1419,7 +1419,7 @@ func main() {
 		replay(run.Replay)
 		return
 	}
-	n := run.Scale(1200, 10000)
+	n := run.Scale(1200, 8000)
 	for i := 0; i < n; i++ {
 		generateHistory(run.Seed, i, run.Thorough())
 	}
